@@ -67,8 +67,7 @@ func nbtArgs(args TranslateArgs) TranslateArgs {
 
 func (m *Message) UnmarshalNBT(tagType byte, r nbt.DecoderReader) error {
 	// Re-combine the tagType into the reader, and create a nbt decoder
-	tagReader := bytes.NewReader([]byte{tagType})
-	decoder := nbt.NewDecoder(io.MultiReader(tagReader, r))
+	decoder := nbt.NewDecoder(nestedReader(tagType, r))
 	decoder.NetworkFormat(true) // TagType directlly followed the body
 
 	switch tagType {
@@ -87,8 +86,7 @@ func (m *Message) UnmarshalNBT(tagType byte, r nbt.DecoderReader) error {
 }
 
 func (t *TranslateArgs) UnmarshalNBT(tagType byte, r nbt.DecoderReader) error {
-	tagReader := bytes.NewReader([]byte{tagType})
-	decoder := nbt.NewDecoder(io.MultiReader(tagReader, r))
+	decoder := nbt.NewDecoder(nestedReader(tagType, r))
 	decoder.NetworkFormat(true) // TagType directlly followed the body
 
 	switch tagType {
